@@ -1,8 +1,266 @@
-//! C02 — stub, to be written.
+//! C02: equal functions have identical Bdds — canonical form through any history.
+//!
+//! One case = one straight-line program over a pool of Bdds:
+//!   `C02.prog <n> <init;init;…> <op;op;…> => <result;result;…>`
+//! The pool starts with the initial Bdds; every operation appends its result (on a panic the
+//! result is `panic` and the pool slot is filled with a copy of pool[0], so indices stay stable).
+//! An operation is `name:arg:arg…`; arguments are pool indices, variables, lists `1.3.0`,
+//! literal lists `0=1.2=0`, operator tables, bit strings.
 #[path = "../common.rs"]
 mod common;
+use biodivine_lib_bdd::*;
 use common::*;
+use std::collections::HashMap;
 
-pub fn run(key: &str, _a: &[String], _out: &mut Out) { panic!("unknown key {}", key) }
-pub fn gen(_tier: Tier, _rng: &mut Rng64, _out: &mut Out) {}
+fn s(x: &str) -> String { x.to_string() }
+
+fn parse_vars(a: &str) -> Vec<BddVariable> {
+    if a == "~" || a.is_empty() { vec![] } else { a.split('.').map(|x| var(x.parse().unwrap())).collect() }
+}
+fn parse_lits(a: &str) -> Vec<(BddVariable, bool)> {
+    if a == "~" || a.is_empty() { vec![] } else {
+        a.split('.').map(|x| { let mut it = x.split('='); (var(it.next().unwrap().parse().unwrap()), it.next().unwrap() == "1") }).collect()
+    }
+}
+fn parse_optvar(a: &str) -> Option<BddVariable> { if a == "-" { None } else { Some(var(a.parse().unwrap())) } }
+
+fn exec(n: usize, vars: &BddVariableSet, pool: &[Bdd], op: &str) -> Option<Bdd> {
+    let f: Vec<&str> = op.split(':').collect();
+    let p = |i: usize| -> &Bdd { &pool[f[i].parse::<usize>().unwrap()] };
+    let nc = |i: usize, seed: usize| -> Bdd { let mut r = Rng64(f[seed].parse::<u64>().unwrap()); noncanon_variant(&mut r, p(i)) };
+    catch(|| match f[0] {
+        "not" => p(1).not(),
+        "and" => p(1).and(p(2)),
+        "or" => p(1).or(p(2)),
+        "xor" => p(1).xor(p(2)),
+        "imp" => p(1).imp(p(2)),
+        "iff" => p(1).iff(p(2)),
+        "andnot" => p(1).and_not(p(2)),
+        "ite" => Bdd::if_then_else(p(1), p(2), p(3)),
+        "bin" => Bdd::binary_op(p(2), p(3), table_fn(f[1])),
+        "fused" => Bdd::fused_binary_flip_op((p(2), parse_optvar(f[3])), (p(4), parse_optvar(f[5])), parse_optvar(f[6]), table_fn(f[1])),
+        "ter" => Bdd::ternary_op(p(2), p(3), p(4), table3_fn(f[1])),
+        "fused3" => Bdd::fused_ternary_flip_op((p(2), parse_optvar(f[3])), (p(4), parse_optvar(f[5])), (p(6), parse_optvar(f[7])), parse_optvar(f[8]), table3_fn(f[1])),
+        "limit" => Bdd::binary_op_with_limit(1 << 30, p(2), p(3), table_fn(f[1])).unwrap(),
+        "exists" => p(1).exists(&parse_vars(f[2])),
+        "forall" => p(1).for_all(&parse_vars(f[2])),
+        "varexists" => p(1).var_exists(var(f[2].parse().unwrap())),
+        "varforall" => p(1).var_for_all(var(f[2].parse().unwrap())),
+        "bexists" => Bdd::binary_op_with_exists(p(2), p(3), table_fn(f[1]), &parse_vars(f[4])),
+        "bforall" => Bdd::binary_op_with_for_all(p(2), p(3), table_fn(f[1]), &parse_vars(f[4])),
+        "nested" => {
+            // nested:<outer table>:<i>:<j>:<trigger bit mask>:<inner or|and>
+            let mask: u64 = f[4].parse().unwrap();
+            let trig = move |v: BddVariable| (mask >> v.to_index()) & 1 == 1;
+            if f[5] == "or" { Bdd::binary_op_nested(p(2), p(3), trig, table_fn(f[1]), op_function::or) }
+            else { Bdd::binary_op_nested(p(2), p(3), trig, table_fn(f[1]), op_function::and) }
+        }
+        "select" => p(1).select(&parse_lits(f[2])),
+        "restrict" => p(1).restrict(&parse_lits(f[2])),
+        "varselect" => p(1).var_select(var(f[2].parse().unwrap()), f[3] == "1"),
+        "varrestrict" => p(1).var_restrict(var(f[2].parse().unwrap()), f[3] == "1"),
+        "pick" => p(1).pick(&parse_vars(f[2])),
+        "varpick" => p(1).var_pick(var(f[2].parse().unwrap())),
+        "pickrandom" => {
+            let flips: Vec<bool> = if f[3] == "~" { vec![] } else { f[3].chars().map(|c| c == '1').collect() };
+            p(1).pick_random(&parse_vars(f[2]), &mut CoinRng::new(flips))
+        }
+        "substitute" => p(1).substitute(var(f[2].parse().unwrap()), p(3)),
+        "dnf" => vars.mk_dnf(&p(1).to_dnf()),
+        "optdnf" => vars.mk_dnf(&p(1).to_optimized_dnf()),
+        "cnf" => vars.mk_cnf(&p(1).to_cnf()),
+        "text" => Bdd::from_string(&p(1).to_string()),
+        "bytes" => Bdd::from_bytes(&mut &p(1).to_bytes()[..]),
+        "nodes" => Bdd::from_nodes(&p(1).clone().to_nodes()).unwrap(),
+        "expr" => vars.eval_expression(&p(1).to_boolean_expression(vars)),
+        "exprtext" => vars.eval_expression_string(&p(1).to_boolean_expression(vars).to_string()),
+        "transfer" => vars.transfer_from(p(1), vars).unwrap(),
+        "renamevar" => { let mut b = p(1).clone(); unsafe { b.rename_variable(var(f[2].parse().unwrap()), var(f[3].parse().unwrap())); } b }
+        "mkvar" => vars.mk_var(var(f[1].parse().unwrap())),
+        "mknotvar" => vars.mk_not_var(var(f[1].parse().unwrap())),
+        "mktrue" => vars.mk_true(),
+        "mkfalse" => vars.mk_false(),
+        "satk" => vars.mk_sat_exactly_k(f[1].parse().unwrap(), &parse_vars(f[2])),
+        "satupk" => vars.mk_sat_up_to_k(f[1].parse().unwrap(), &parse_vars(f[2])),
+        "clause" => vars.mk_conjunctive_clause(&BddPartialValuation::from_values(&parse_lits(f[1]))),
+        "dclause" => vars.mk_disjunctive_clause(&BddPartialValuation::from_values(&parse_lits(f[1]))),
+        "valuation" => Bdd::from(BddValuation::new(f[1].chars().map(|c| c == '1').collect())),
+        // operators on merely valid (non-canonical) variants of pool elements
+        "ncbin" => Bdd::binary_op(&nc(2, 4), &nc(3, 5), table_fn(f[1])),
+        "ncand" => nc(1, 2).and(&vars.mk_true()),
+        "ncter" => Bdd::ternary_op(&nc(2, 5), &nc(3, 6), p(4), table3_fn(f[1])),
+        "ncexists" => Bdd::binary_op_with_exists(&nc(2, 5), &nc(3, 6), table_fn(f[1]), &parse_vars(f[4])),
+        _ => panic!("unknown op {}", op),
+    })
+    .filter(|b| b.num_vars() as usize == n || true)
+}
+
+pub fn run(key: &str, a: &[String], out: &mut Out) {
+    match key {
+        "C02.prog" => {
+            let n: usize = a[0].parse().unwrap();
+            let vars = BddVariableSet::new_anonymous(n as u16);
+            let mut pool: Vec<Bdd> = a[1].split(';').map(Bdd::from_string).collect();
+            let mut results = vec![];
+            for op in a[2].split(';') {
+                match exec(n, &vars, &pool, op) {
+                    Some(b) => { results.push(fmt_bdd(&b)); pool.push(b); }
+                    None => { results.push(s("panic")); let z = pool[0].clone(); pool.push(z); }
+                }
+            }
+            // Eq/Hash/serialised forms of equal-function pairs: `==`, hash, text and bytes agree exactly when the node vectors agree
+            let mut obs = vec![results.join(";")];
+            let mut consistent = true;
+            let mut hashes: HashMap<String, u64> = HashMap::new();
+            for b in &pool {
+                use std::hash::{Hash, Hasher};
+                let mut h = std::collections::hash_map::DefaultHasher::new();
+                b.hash(&mut h);
+                let hv = h.finish();
+                let key = fmt_bdd(b);
+                if let Some(prev) = hashes.get(&key) { if *prev != hv { consistent = false; } }
+                hashes.insert(key, hv);
+            }
+            for i in 0..pool.len() { for j in 0..i {
+                let same_nodes = fmt_bdd(&pool[i]) == fmt_bdd(&pool[j]);
+                if (pool[i] == pool[j]) != same_nodes { consistent = false; }
+                if same_nodes && (pool[i].to_string() != pool[j].to_string() || pool[i].to_bytes() != pool[j].to_bytes()) { consistent = false; }
+            } }
+            obs.push(s(if consistent { "eqhash-ok" } else { "eqhash-bad" }));
+            // is_true / is_false as the library reports them
+            obs.push(pool.iter().skip(a[1].split(';').count()).map(|b| if b.is_false() { 'F' } else if b.is_true() { 'T' } else { '-' }).collect());
+            out.case(key, a, &obs);
+        }
+        _ => panic!("unknown key {}", key),
+    }
+}
+
+fn rand_vars(rng: &mut Rng64, n: usize) -> String {
+    if n == 0 { return s("~"); }
+    let k = rng.below(n as u64 + 2) as usize;
+    let v: Vec<String> = (0..k).map(|_| rng.below(n as u64).to_string()).collect();
+    if v.is_empty() { s("~") } else { v.join(".") }
+}
+fn rand_lits(rng: &mut Rng64, n: usize) -> String {
+    if n == 0 { return s("~"); }
+    let k = rng.below(n as u64 + 1) as usize;
+    let v: Vec<String> = (0..k).map(|_| format!("{}={}", rng.below(n as u64), rng.below(2))).collect();
+    if v.is_empty() { s("~") } else { v.join(".") }
+}
+fn rand_optvar(rng: &mut Rng64, n: usize) -> String {
+    if n == 0 || rng.chance(1, 2) { s("-") } else { rng.below(n as u64).to_string() }
+}
+fn rand_table(rng: &mut Rng64) -> String { let c = rng.below(16) as u32; random_table2(rng, c) }
+fn rand_table3(rng: &mut Rng64) -> String { let c = rng.below(256) as u32; random_table3(rng, c) }
+
+/// one random operation over a pool of `m` elements
+fn rand_op(rng: &mut Rng64, n: usize, m: usize) -> String {
+    let i = rng.below(m as u64); let j = rng.below(m as u64); let k = rng.below(m as u64);
+    let x = if n == 0 { 0 } else { rng.below(n as u64) };
+    match rng.below(if n == 0 { 20 } else { 52 }) {
+        0 => format!("not:{}", i),
+        1 => format!("and:{}:{}", i, j),
+        2 => format!("or:{}:{}", i, j),
+        3 => format!("xor:{}:{}", i, j),
+        4 => format!("imp:{}:{}", i, j),
+        5 => format!("iff:{}:{}", i, j),
+        6 => format!("andnot:{}:{}", i, j),
+        7 => format!("ite:{}:{}:{}", i, j, k),
+        8 => format!("bin:{}:{}:{}", rand_table(rng), i, j),
+        9 => format!("ter:{}:{}:{}:{}", rand_table3(rng), i, j, k),
+        10 => format!("limit:{}:{}:{}", rand_table(rng), i, j),
+        11 => format!("dnf:{}", i),
+        12 => format!("optdnf:{}", i),
+        13 => format!("cnf:{}", i),
+        14 => format!("text:{}", i),
+        15 => format!("bytes:{}", i),
+        16 => format!("nodes:{}", i),
+        17 => format!("expr:{}", i),
+        18 => format!("exprtext:{}", i),
+        19 => format!("transfer:{}", i),
+        20 => format!("fused:{}:{}:{}:{}:{}:{}", rand_table(rng), i, rand_optvar(rng, n), j, rand_optvar(rng, n), rand_optvar(rng, n)),
+        21 => format!("fused3:{}:{}:{}:{}:{}:{}:{}:{}", rand_table3(rng), i, rand_optvar(rng, n), j, rand_optvar(rng, n), k, rand_optvar(rng, n), rand_optvar(rng, n)),
+        22 | 23 => format!("exists:{}:{}", i, rand_vars(rng, n)),
+        24 | 25 => format!("forall:{}:{}", i, rand_vars(rng, n)),
+        26 => format!("varexists:{}:{}", i, x),
+        27 => format!("varforall:{}:{}", i, x),
+        28 => format!("bexists:{}:{}:{}:{}", rand_table(rng), i, j, rand_vars(rng, n)),
+        29 => format!("bforall:{}:{}:{}:{}", rand_table(rng), i, j, rand_vars(rng, n)),
+        30 => format!("nested:{}:{}:{}:{}:{}", rand_table(rng), i, j, rng.below(1 << n), if rng.bool() { "or" } else { "and" }),
+        31 | 32 => format!("select:{}:{}", i, rand_lits(rng, n)),
+        33 | 34 | 35 => format!("restrict:{}:{}", i, rand_lits(rng, n)),
+        36 => format!("varselect:{}:{}:{}", i, x, rng.below(2)),
+        37 | 38 => format!("varrestrict:{}:{}:{}", i, x, rng.below(2)),
+        39 => format!("pick:{}:{}", i, rand_vars(rng, n)),
+        40 => format!("varpick:{}:{}", i, x),
+        41 => { let flips: Vec<bool> = (0..n + 2).map(|_| rng.bool()).collect(); format!("pickrandom:{}:{}:{}", i, rand_vars(rng, n), fmt_bools(&flips)) }
+        42 | 43 => format!("substitute:{}:{}:{}", i, x, j),
+        44 => format!("renamevar:{}:{}:{}", i, x, rng.below(n as u64)),
+        45 => format!("mkvar:{}", x),
+        46 => format!("satk:{}:{}", rng.below(n as u64 + 2), rand_vars(rng, n)),
+        47 => format!("satupk:{}:{}", rng.below(n as u64 + 2), rand_vars(rng, n)),
+        48 => format!("clause:{}", rand_lits(rng, n)),
+        49 => format!("dclause:{}", rand_lits(rng, n)),
+        50 => { let v: Vec<bool> = (0..n).map(|_| rng.bool()).collect(); format!("valuation:{}", fmt_bools(&v)) }
+        _ => match rng.below(4) {
+            0 => format!("ncbin:{}:{}:{}:{}:{}", rand_table(rng), i, j, rng.below(1000), rng.below(1000)),
+            1 => format!("ncand:{}:{}", i, rng.below(1000)),
+            2 => format!("ncter:{}:{}:{}:{}:{}:{}", rand_table3(rng), i, j, k, rng.below(1000), rng.below(1000)),
+            _ => format!("ncexists:{}:{}:{}:{}:{}:{}", rand_table(rng), i, j, rand_vars(rng, n), rng.below(1000), rng.below(1000)),
+        },
+    }
+}
+
+pub fn gen(tier: Tier, rng: &mut Rng64, out: &mut Out) {
+    let thorough = tier == Tier::Thorough;
+    // --- single operations on all functions over 3 variables that have a layout-sensitive shape
+    // (two routes to the same function: the operation result vs. the oracle-built canonical form
+    //  is checked by the driver through `isCanon`)
+    let all3: Vec<String> = (0..256u64).map(|t| fmt_bdd(&bdd_of_tt(3, &tt_from_index(3, t)))).collect();
+    let n_single = if thorough { 256 } else { 64 };
+    for t in 0..n_single {
+        let b = if thorough { all3[t].clone() } else { all3[rng.below(256) as usize].clone() };
+        let ops = [s("not:0"), s("dnf:0"), s("optdnf:0"), s("cnf:0"), s("text:0"), s("bytes:0"), s("expr:0"), s("exprtext:0"),
+                   s("varrestrict:0:0:1"), s("varrestrict:0:1:0"), s("varrestrict:0:2:1"), s("restrict:0:0=1.2=0"),
+                   s("exists:0:1"), s("forall:0:0.2"), s("pick:0:2.0"), s("varpick:0:1"), s("substitute:0:1:0"), s("transfer:0"),
+                   s("ncand:0:7"), s("and:0:0"), s("ite:0:0:0")];
+        run("C02.prog", &[s("3"), b, ops.join(";")], out);
+    }
+    // the function of the fixed restrict defect: (x0 & x1) | (!x0 & x2) over 4 variables, restricted on x3
+    {
+        let tt: Vec<bool> = (0..16).map(|i| { let v = val_of_index(4, i); (v[0] && v[1]) || (!v[0] && v[2]) }).collect();
+        run("C02.prog", &[s("4"), fmt_bdd(&bdd_of_tt(4, &tt)), s("varrestrict:0:3:1;varrestrict:0:3:0;restrict:0:3=1;and:0:1;iff:0:1")], out);
+    }
+    // --- random histories
+    let programs = if thorough { 60000 } else { 1500 };
+    for _ in 0..programs {
+        let n = match rng.below(10) { 0 => 0, 1 => 1, 2 => 2, 3 | 4 => 3, 5 | 6 => 4, 7 => 5, 8 => 6, _ => 7 } as usize;
+        let inits = 2 + rng.below(3) as usize;
+        let mut pool: Vec<String> = vec![];
+        for _ in 0..inits {
+            pool.push(match rng.below(6) {
+                0 if n > 0 => fmt_bdd(&bdd_of_tt(n, &(0..(1usize << n)).map(|i| val_of_index(n, i)[(rng.0 % n as u64) as usize]).collect::<Vec<_>>())),
+                1 => fmt_bdd(&bdd_of_tt(n, &vec![rng.bool(); 1 << n])),
+                _ => fmt_bdd(&random_bdd(rng, n)),
+            });
+        }
+        let len = 1 + rng.below(12) as usize;
+        let mut ops = vec![];
+        for k in 0..len { ops.push(rand_op(rng, n, inits + k)); }
+        // deliberate second routes to earlier results
+        if len >= 2 && rng.chance(1, 2) {
+            let m = inits + len;
+            let (i, j) = (rng.below(inits as u64), rng.below(inits as u64));
+            ops.push(format!("and:{}:{}", i, j));            // m
+            ops.push(format!("not:{}", i));                  // m+1
+            ops.push(format!("not:{}", j));                  // m+2
+            ops.push(format!("or:{}:{}", m + 1, m + 2));     // m+3
+            ops.push(format!("not:{}", m + 3));              // m+4 == m (De Morgan)
+            ops.push(format!("andnot:{}:{}", i, m + 2));     // == m
+            ops.push(format!("ite:{}:{}:{}", i, j, m + 3 - m + m)); // arbitrary mix
+        }
+        run("C02.prog", &[n.to_string(), pool.join(";"), ops.join(";")], out);
+    }
+}
+
 fn main() { harness_main(gen, run) }
